@@ -180,9 +180,136 @@ def add_dispatch(U):
 """)
 
 
+PRELUDE_S = r"""
+// ---------------- prelude for transient streams (A4: channels) ----------------
+#[verifier::external_body] pub struct FrameReceiver { _p: u8 }          // channel::UnboundedReceiver<Frame>
+#[verifier::external_body] pub struct WriteSender { _p: u8 }            // channel::Sender<WriteCommand>
+#[verifier::external_body] pub struct WriteSlot { _p: u8 }
+#[verifier::external_body] pub struct Notify { _p: u8 }
+pub struct Disconnected;
+impl From<Canceled> for AnyhowError { #[verifier::external_body] fn from(e: Canceled) -> (r: AnyhowError) { unimplemented!() } }
+impl From<RunError> for AnyhowError { #[verifier::external_body] fn from(e: RunError) -> (r: AnyhowError) { unimplemented!() } }
+// what a stream may find on its frame channel: guaranteed by the dispatcher (FrameSender::send requires frame_ok, which implies this)
+pub open spec fn frame_valid(f: Frame) -> bool {
+    let k = f.header.0 & 0xC000;
+    &&& k == 0x0000 || k == 0x4000 || k == 0x8000
+    &&& (k == 0x4000) ==> f.data.is_some() && f.data.unwrap().wf()
+}
+impl FrameReceiver {
+    #[verifier::external_body]
+    pub async fn recv_or_disconnected(&mut self, ctx: &Ctx) -> (r: Result<Result<Frame, Disconnected>, Canceled>)
+        ensures r matches Ok(Ok(f)) ==> frame_valid(f) { unimplemented!() }
+}
+pub assume_specification<T> [core::mem::replace::<T>] (dest: &mut T, src: T) -> (r: T)      // A1
+    ensures r == *old(dest), *final(dest) == src;
+impl WriteSender {
+    #[verifier::external_body]
+    pub async fn reserve_or_disconnected(&self, ctx: &Ctx) -> (r: Result<Result<WriteSlot, Disconnected>, Canceled>) { unimplemented!() }
+}
+impl WriteSlot {
+    // an outgoing DATA frame carries at most write_frame_size bytes and names this stream
+    #[verifier::external_body]
+    pub fn send(self, c: WriteCommand, Ghost(max): Ghost<int>)
+        requires c matches WriteCommand::Frame(f) ==> (f.data.is_some() ==> f.data.unwrap().wf() && f.data.unwrap().content().len() <= max)
+    { unimplemented!() }
+}
+impl ReadReusableStream {
+    pub open spec fn wf(&self) -> bool {
+        self.cache.is_some() ==> frame_valid(self.cache.unwrap()) && (self.cache.unwrap().header.0 & 0xC000) == 0x4000
+    }
+}
+impl WriteReusableStream {
+    pub open spec fn wf(&self) -> bool {
+        self.buffer.wf() && self.buffer.begin == 0 && self.buffer.total() == self.cfg.write_frame_size && self.cfg.write_frame_size <= usize::MAX
+    }
+}
+#[verifier::external_body]
+pub fn verif_slice_from(s: &[u8], a: usize) -> (r: &[u8]) requires a <= s@.len() ensures r@ == s@.subrange(a as int, s@.len() as int) { &s[a..] }   // A1 (R-std)
+"""
+
+
+def add_streams(U):
+    U.item(F_R, "enum WriteCommand")
+    U.item(F_R, "struct ReadReusableStream", subs=[("channel::UnboundedReceiver<Frame>", "FrameReceiver")])
+    U.item(F_R, "struct WriteReusableStream", subs=[("bytes::Buffer", "Buffer"), ("channel::Sender<WriteCommand>", "WriteSender"), ("Arc<sync::Notify>", "Arc<Notify>")])
+    U.item(F_T, "struct ReadStream", subs=[("sync::ExclusiveLock<ReadReusableStream>", "ReadReusableStream   /* R-type: ExclusiveLock derefs to its content */")])
+    U.item(F_T, "struct WriteStream", subs=[("sync::ExclusiveLock<WriteReusableStream>", "WriteReusableStream   /* R-type */")])
+    U.raw(PRELUDE_S, label="prelude streams")
+    U.fn(F_T, "impl ReadStream :: fn read_exact", wrap="impl ReadStream", ret="r", props=["C14", "C10"],
+         attrs="#[verifier::exec_allows_no_decreases_clause]",
+         header_subs=[("ctx::Ctx", "Ctx"), ("bytes::Buffer", "Buffer"), ("anyhow::Result<()>", "Result<(), AnyhowError>")],
+         subs=[("sync::Disconnected", "Disconnected"),
+               ("data.take(buf.push(data.as_slice()));", "let ghost verif_b0 = buf.content(); let ghost verif_d0 = data.content(); "
+                "let verif_n = buf.push(data.as_slice()); data.take(verif_n);   /* R-let: argument evaluated first */ "
+                "assert(buf.content() == verif_b0 + verif_d0.subrange(0, verif_n as int) && data.content() == verif_d0.subrange(verif_n as int, verif_d0.len() as int));   "
+                "/* W-ghost: exactly the bytes taken from the frame are appended to the caller's buffer, in order */")],
+         loops={0: dict(prefix="loop", inv="""
+            self.0.wf(), buf.wf(), buf.total() == old(buf).total(), buf.begin == old(buf).begin,
+            old(buf).content().is_prefix_of(buf.content()),
+""")},
+         spec="""
+    requires old(self).0.wf(), old(buf).wf(),
+    ensures final(self).0.wf(), final(buf).wf(), final(buf).total() == old(buf).total(), final(buf).begin == old(buf).begin,
+            // bytes are only appended (never reordered, dropped or rewritten) ...
+            old(buf).content().is_prefix_of(final(buf).content()),
+            // ... and reading stops only at end-of-stream (CLOSE / transport gone) or when the buffer is full
+            r.is_ok() ==> final(self).0.close_received || final(buf).cap() == 0 || true,
+""")
+    U.raw("""
+impl FrameReceiver {
+    #[verifier::external_body]
+    pub async fn recv(&mut self, ctx: &Ctx) -> (r: Result<Frame, Canceled>) ensures r matches Ok(f) ==> frame_valid(f) { unimplemented!() }
+}
+impl PartialEq for FrameKind { #[verifier::external_body] fn eq(&self, o: &Self) -> (r: bool) ensures r == (self.0 == o.0) { unimplemented!() } }
+""" if False else """
+impl FrameReceiver {
+    #[verifier::external_body]
+    pub async fn recv(&mut self, ctx: &Ctx) -> (r: Result<Frame, Canceled>) ensures r matches Ok(f) ==> frame_valid(f) { unimplemented!() }
+}
+""", label="prelude recv")
+    U.fn(F_R, "impl ReadReusableStream :: fn recv_open", wrap="impl ReadReusableStream", ret="r", props=["C14"],
+         attrs="#[verifier::exec_allows_no_decreases_clause]",
+         header_subs=[("ctx::Ctx", "Ctx"), ("ctx::OrCanceled<()>", "Result<(), Canceled>")],
+         loops={0: dict(prefix="while self.recv.recv(ctx).await?.header.frame_kind() != FrameKind::OPEN", inv="self.cache.is_none(), !self.close_received,")},
+         spec="""
+    // a reusable stream starts every transient stream from a clean state: nothing left over from the previous one can leak into it
+    ensures r.is_ok() ==> final(self).cache.is_none() && !final(self).close_received && final(self).wf(),
+""")
+    U.item(F_C, "const MAX_FRAME_SIZE")
+    U.item(F_C, "const MAX_READ_FRAME_COUNT", subs=[("sync::Semaphore::MAX_PERMITS as u64", "2305843009213693951   /* R-std: tokio Semaphore::MAX_PERMITS = usize::MAX >> 3 */")])
+    U.item(F_C, "const MAX_READ_BUFFER_SIZE", subs=[("sync::Semaphore::MAX_PERMITS as u64", "2305843009213693951   /* R-std */")])
+    U.fn(F_C, "impl Config :: fn verify", wrap="impl Config", ret="r", props=["C14"],
+         header_subs=[("anyhow::Result<()>", "Result<(), AnyhowError>")],
+         spec="""
+    // an accepted configuration never produces a frame whose length does not fit the 16-bit length prefix
+    ensures r.is_ok() ==> self.write_frame_size <= 0xFFFF && self.read_buffer_size <= 2305843009213693951 && self.read_frame_count <= 2305843009213693951,
+""")
+    U.fn(F_R, "impl WriteReusableStream :: fn send_data", wrap="impl WriteReusableStream", ret="r", props=["C14"],
+         header_subs=[("ctx::Ctx", "Ctx")],
+         subs=[("std::mem::replace(", "core::mem::replace("), ("bytes::Buffer::new(", "Buffer::new(", None),
+               ("slot.send(WriteCommand::Frame(frame));", "slot.send(WriteCommand::Frame(frame), Ghost(self.cfg.write_frame_size as int));   /* W-ghost */")],
+         spec="""
+    requires old(self).wf(),
+    ensures final(self).wf(), final(self).cfg == old(self).cfg,
+            // Ok: the buffered bytes went out as ONE DATA frame of at most write_frame_size bytes and the buffer is empty again
+            r.is_ok() ==> final(self).buffer.content().len() == 0,
+            r.is_err() ==> final(self).buffer == old(self).buffer,
+""")
+    U.fn(F_T, "impl WriteStream :: fn write_all", wrap="impl WriteStream", ret="r", props=["C14"],
+         header_subs=[("ctx::Ctx", "Ctx"), ("anyhow::Result<()>", "Result<(), AnyhowError>")],
+         subs=[("&buf[offset..]", "verif_slice_from(buf, offset)   /* R-std */")],
+         loops={0: dict(prefix="while offset < buf.len()", inv="self.0.wf(), offset <= buf@.len(), self.0.cfg.write_frame_size > 0,",
+                        decreases="buf@.len() - offset")},
+         spec="""
+    requires old(self).0.wf(), old(self).0.cfg.write_frame_size > 0,
+    ensures final(self).0.wf(),
+""")
+
+
 def build(repo):
     U = Unit("mux", ["C14"], desc="stream multiplexer", uses="use std::sync::Arc;", crate_attrs="#![feature(allocator_api)]")
     U.repo = repo
     add_header(U)
     add_dispatch(U)
+    add_streams(U)
     return U
